@@ -269,7 +269,15 @@ def check_acquire(ctx):
         ctx.check(ok, inst, "PIN", b.path, "the installed state is the tested state + 1 reader", b.where(c), {"expected": cur.show()[:60], "new": new.show()[:60]})
 
 
+def check_range_resolve(ctx):
+    """a range scan racing with rewrite + retirement re-resolves a stale handle by key: that key must be the entry's own
+    (same rule as C14.resolve), or the scan hands out another key's bytes"""
+    from rules import C14
+    C14.check_range_resolution(ctx, "C08.range-resolve")
+
+
 def check(ctx):
+    check_range_resolve(ctx)
     check_acquire(ctx)
     check_successor(ctx)
     check_pin(ctx)
